@@ -81,7 +81,10 @@ func c15Profiles(tier string) []Profile {
 			w.CheckRefLive()
 			w.CloseAllAndCheckRefs(true)
 		}}
-	return []Profile{conc.Profile(2), p.Profile(fmt.Sprintf("every history of length <= %d over Set/Delete/Evict, GetItem (both value modes), Exist, MinItem, ascending visit, descending Ex visit with early stop, iterator with early close, key-only visits whose callback looks up another key with its value or evicts, CopyTo (two collections), Len, block and random visits, RemoveCollection, SetCollection (new/existing), Flush, Reopen, Snapshot / read / close of a snapshot, then closing snapshots and store in both orders; counting ItemAlloc/ItemAddRef/ItemDecRef callbacks: no count below zero, every item handed to a visitor or the caller and every cached item reachable from an open handle has a positive count, and after closing everything all counts are zero; an item whose count reaches zero is scrubbed (key and value overwritten) and any later reference to it is reported, so a use after release shows as a wrong result", d))}
+	faulted := Profile{Name: "refcount-after-faults", Exec: OnlyOracles(c07ExecMon(1, 1, false, harness.Monitors{RefCount: true}), "refcount", "observe", "model"),
+		Budget: map[int]int{1: 0, 2: 0, 3: 1}, ShardLevel: 3,
+		Rule: "reference counting across failed calls: 5 initial stores x every single operation x one failing file call at every index (retried or not), then Set, Flush, full read battery, Reopen, Close; counts never negative, no use after release (released items are scrubbed); a zero balance is not demanded after a failed call"}
+	return []Profile{conc.Profile(2), faulted, p.Profile(fmt.Sprintf("every history of length <= %d over Set/Delete/Evict, GetItem (both value modes), Exist, MinItem, ascending visit, descending Ex visit with early stop, iterator with early close, key-only visits whose callback looks up another key with its value or evicts, CopyTo (two collections), Len, block and random visits, RemoveCollection, SetCollection (new/existing), Flush, Reopen, Snapshot / read / close of a snapshot, then closing snapshots and store in both orders; counting ItemAlloc/ItemAddRef/ItemDecRef callbacks: no count below zero, every item handed to a visitor or the caller and every cached item reachable from an open handle has a positive count, and after closing everything all counts are zero; an item whose count reaches zero is scrubbed (key and value overwritten) and any later reference to it is reported, so a use after release shows as a wrong result", d))}
 }
 
 func init() {
